@@ -28,7 +28,9 @@ SInit == /\ c \in 1..NChunks
          /\ nfail = 0 /\ nskip = 0 /\ nnt = 0 /\ ndrift = 0
 
 SStep == /\ i <= Hi(c)
-         /\ LET v == Judge(Rec[i]) IN
+         \* bound through a singleton set so that Judge is evaluated once (TLC re-evaluates
+         \* LET definitions at every use inside an action)
+         /\ \E v \in {Judge(Rec[i])} :
               /\ IF v.why = <<>> THEN TRUE ELSE PrintT(<<"FAIL", i, v.why>>)
               /\ IF v.drift = <<>> THEN TRUE ELSE PrintT(<<"DRIFT", i, v.drift>>)
               /\ nfail' = nfail + (IF v.why = <<>> THEN 0 ELSE 1)
